@@ -769,7 +769,7 @@ PROPS = {
     "C19": dict(
         harness="ffi",
         audit_modules=["RodbusModel.Audit.C19"],
-        required_theorems=["Rodbus.C19.db_refines_map", "Rodbus.C19.absent_point_exception_02", "Rodbus.C19.transaction_atomic",
+        required_theorems=["Rodbus.C19.disjoint_writers_commute", "Rodbus.C19.incr_applied_once", "Rodbus.C19.db_refines_map", "Rodbus.C19.absent_point_exception_02", "Rodbus.C19.transaction_atomic",
                            "Rodbus.C19.read_sees_whole_transactions", "Rodbus.C19.tables_independent"],
         suites=[dict(gen="ffi_db", n=(150, 3200), jobs=8), dict(gen="ffi_atomic", n=(1, 4), jobs=4)],
         level_text="Proof: db_refines_map (for every op sequence over the four point types the results of add/update/delete/get equal those of the "
